@@ -492,6 +492,7 @@ class VM:
         self.model_pool = []
         self.npool_hits = 0
         self.nrestored = 0
+        self.check_restore = bool(__import__('os').environ.get('VF_CHECK_RESTORE'))
         self.named = {}
         self.name_threshold = int(__import__('os').environ.get('VF_STATE_T', '48'))
         self.access_log = None  # Engine B: list of field accesses for the lockset analysis
@@ -690,6 +691,11 @@ class VM:
                 and s.orig[:-1] == other.orig[:-1]:
             share = s.orig[-1][1] + other.orig[-1][1]
             if share == 1:
+                if self.check_restore:
+                    G = s.orig[-1][0]
+                    both = OR(g, other.guard)
+                    if self.feasible(AND(G, NOT(both))) or self.feasible(AND(both, NOT(G))):
+                        raise Unsupported("internal: fork-share restoration is not an equivalence")
                 s.guard = s.orig[-1][0]
                 s.orig = s.orig[:-1]
                 restored = True
@@ -775,11 +781,15 @@ class VM:
         """propagate exc (concrete exception instance or Union of them) in s; returns list of states"""
         if type(exc) is Union:
             out = []
-            for g, e in exc.alts:
-                gg = AND(s.guard, g)
-                if gg is FALSE:
-                    continue
-                out.extend(self.unwind(s.copy(gg), e))
+            alts = [(AND(s.guard, g), e) for g, e in exc.alts]
+            alts = [(gg, e) for gg, e in alts if gg is not FALSE]
+            if not alts:
+                return []
+            top = (s.guard, Fraction(1, len(alts)), next(_fork_ids))
+            for gg, e in alts:
+                s2 = s.copy(gg)
+                s2.orig = s.orig + (top,)
+                out.extend(self.unwind(s2, e))
             return out
         if isinstance(exc, type) and issubclass(exc, BaseException):
             exc = self.make_exc(exc)
